@@ -102,6 +102,7 @@ impl Campaign for StressCampaign {
         let mut spy_rx = None;
         let mut reader: Option<std::thread::JoinHandle<()>> = None;
         let released = Arc::new(std::sync::atomic::AtomicUsize::new(0));
+        let mut queue_clones: Vec<cadence::QueuingMetricSink> = Vec::new();
         let client: StatsdClient = match case.sink {
             StressSink::QueuedSpy => {
                 let (rx, sink) = BufferedSpyMetricSink::with_capacity(None, Some(case.cap));
@@ -112,7 +113,11 @@ impl Campaign for StressCampaign {
                     done: Arc::new(std::sync::atomic::AtomicUsize::new(0)),
                     released: crate::sockets::ReleaseSignal(released.clone()),
                 };
-                StatsdClient::from_sink("", crate::queue::build_queuing(rec, case.yields))
+                let q = crate::queue::build_queuing(rec, case.yields);
+                // clones of the queuing handle exist elsewhere in a real program (they must not
+                // add consumers: one thread's metrics stay in program order)
+                queue_clones = (0..(case.yields >> 8) % 3).map(|_| q.clone()).collect();
+                StatsdClient::from_sink("", q)
             }
             StressSink::Spy => {
                 let (rx, sink) = BufferedSpyMetricSink::with_capacity(None, Some(case.cap));
@@ -254,6 +259,7 @@ impl Campaign for StressCampaign {
             Ok(c) => drop(c),
             Err(_) => panics.push("client still shared after join".into()),
         }
+        drop(queue_clones);
         if case.sink == StressSink::QueuedSpy {
             // the queue drains in the background; the wrapped buffered sink is dropped (and flushed) last
             let deadline = std::time::Instant::now() + w;
